@@ -131,10 +131,15 @@ Truncate(req, to, fork, at) ==
 \* create_proposed_transactions stored transaction t (built for target height `target`, expiry e): it spends the
 \* notes S and creates the outputs `outs`; the wallet records the spends and its own change at once, before the
 \* transaction is mined (a *pending* transaction, C08)
-Create(t, target, e, S, outs) ==
+\* K: the outputs to the sender's own internal address that the wallet records at once -- every value-bearing one
+\* (its change); zero-valued ones (padding counterparts of Orchard spends from NU6.3 on) only turn up when scanned
+CreateChange(outs) == { outs[i].n : i \in { i \in DOMAIN outs : outs[i].n # 0 /\ outs[i].int } }
+CreateChangeMust(outs) == { outs[i].n : i \in { i \in DOMAIN outs : outs[i].n # 0 /\ outs[i].int /\ outs[i].v > 0 } }
+Create(t, target, e, S, outs, K) ==
     LET own == { outs[i].n : i \in { i \in DOMAIN outs : outs[i].n # 0 } }
-        chg == { outs[i].n : i \in { i \in DOMAIN outs : outs[i].n # 0 /\ outs[i].int } }
-    IN  /\ t \notin DOMAIN txs
+        chg == K
+    IN  /\ CreateChangeMust(outs) \subseteq K /\ K \subseteq CreateChange(outs)
+        /\ t \notin DOMAIN txs
         /\ txs' = [x \in DOMAIN txs \cup {t} |-> IF x = t THEN [mined |-> -1, minobs |-> target, exp |-> e] ELSE txs[x]]
         /\ links' = links \cup { << n, t >> : n \in S }
         /\ known' = known \cup chg
